@@ -242,3 +242,66 @@ func init() {
 		return out
 	}
 }
+
+// FormatTimeBytes / ParseTimeBytes (types/utils.go): replaced by an order-isomorphic 29-byte encoding
+// (8 bytes big-endian internal seconds, 4 bytes big-endian nanoseconds, 17 zero bytes).  The real function's
+// output (ASCII "2006-01-02T15:04:05.000000000") orders the same way for years 0..9999 (assumption, see DESIGN).
+func init() {
+	externals[RepoMod+"/types.FormatTimeBytes"] = func(fr *frame, a []value) value {
+		i := fr.i
+		C := i.m.C
+		st := a[0].(structure)
+		wall, ext := st[0], st[1]
+		// no monotonic reading expected
+		wt := i.term(wall)
+		if !(wt.Hi != nil && wt.Hi.Cmp(pow2(63)) < 0) {
+			unsup("FormatTimeBytes of a time with a monotonic clock reading")
+		}
+		nsec := C.Mod(wt, C.Const(pow2(30)))
+		sec := i.term(ext)
+		if sec.Lo == nil || sec.Lo.Sign() < 0 {
+			// clamp: times before year 1 are not produced by the harnesses
+			if i.decide(C.Lt(sec, C.ConstI(0))) {
+				unsup("FormatTimeBytes of a time before year 1")
+			}
+		}
+		out := make([]value, 29)
+		for j := 0; j < 8; j++ {
+			out[j] = i.wrapK(C.Div(sec, C.Const(pow2(8*(7-j)))), types.Uint8)
+		}
+		for j := 0; j < 4; j++ {
+			out[8+j] = i.wrapK(C.Div(nsec, C.Const(pow2(8*(3-j)))), types.Uint8)
+		}
+		for j := 12; j < 29; j++ {
+			out[j] = uint8(0)
+		}
+		return out
+	}
+	externals[RepoMod+"/types.ParseTimeBytes"] = func(fr *frame, a []value) value {
+		i := fr.i
+		C := i.m.C
+		bs := a[0].([]value)
+		tt := fr.i.prog.ImportedPackage("time").Type("Time").Type()
+		if len(bs) != 29 {
+			return tuple{zero(tt), i.mkError("parsing time: bad length")}
+		}
+		sec := C.ConstI(0)
+		for j := 0; j < 8; j++ {
+			sec = C.Add(C.Mul(sec, C.ConstI(256)), i.term(bs[j]))
+		}
+		nsec := C.ConstI(0)
+		for j := 0; j < 4; j++ {
+			nsec = C.Add(C.Mul(nsec, C.ConstI(256)), i.term(bs[8+j]))
+		}
+		st := zero(tt).(structure)
+		st[0] = i.wrapK(nsec, types.Uint64)
+		st[1] = i.wrapK(sec, types.Int64)
+		st[2] = (*value)(nil)
+		return tuple{st, iface{}}
+	}
+}
+
+func init() {
+	externals["(*"+RepoMod+"/types.sdkError).ABCILog"] = func(fr *frame, a []value) value { return "<abci log>" }
+	externals["(*"+RepoMod+"/types.sdkError).Error"] = func(fr *frame, a []value) value { return "<sdk error>" }
+}
